@@ -180,7 +180,7 @@ func wgName(v ssa.Value) string {
 		return n
 	}
 	if al, ok := v.(*ssa.Alloc); ok {
-		return al.Comment
+		return allocName(al)
 	}
 	return chanName(v)
 }
